@@ -8,6 +8,7 @@ package harness
 import (
 	"fmt"
 	"strings"
+	"sync"
 	"testing"
 
 	"github.com/trustbloc/sidetree-go/pkg/api/protocol"
@@ -338,4 +339,67 @@ func TestC02_SignatureBitScan(t *testing.T) {
 			}
 		}
 	}
+}
+
+// TestC02_Concurrent: correctly signed operations change the state also when many of them are verified at the same
+// time by one applier (all signers of one key type, so that per-curve state is what they share).
+func TestC02_Concurrent(t *testing.T) {
+	st := statsFor("C02")
+	check(t, "C02", 30, func(t *rapid.T) {
+		p := wideProtocol()
+		stack := newStack(p)
+		kt := genKeyType(t, "kt")
+		n := rapid.IntRange(2, 8).Draw(t, "goroutines")
+		rounds := rapid.IntRange(3, 15).Draw(t, "rounds")
+		type job struct {
+			prev   *protocol.ResolutionModel
+			op     []byte
+			suffix string
+			next   string
+		}
+		jobs := make([]job, n)
+		for i := range jobs {
+			upd := genKeyOf(t, kt, "update").WithNonce(genNonce(t, int(p.NonceSize), "nonce"))
+			rec := otherKey(t, upd)
+			// a long kid keeps the verifier busy hashing (the protected header is part of the signing input)
+			cr := newCreate(18, rec, upd, []interface{}{map[string]interface{}{"action": "add-also-known-as", "uris": []interface{}{fmt.Sprintf("https://c02.example/%d", i)}}}, nil, "")
+			suffix := cr.suffixFor(p.MultihashAlgorithms[0])
+			prev, err := stack.Applier.Apply(anchoredBytes("create", cr.bytes(), suffix, anchorMeta{Time: 1, Canonical: "c"}), &protocol.ResolutionModel{})
+			if err != nil {
+				t.Fatalf("C02 harness: create refused: %v", err)
+			}
+			next := otherKey(t, upd)
+			b := newUpdate(18, suffix, upd, next, []interface{}{map[string]interface{}{"action": "add-also-known-as", "uris": []interface{}{"https://c02.example/updated"}}}, 0, 0)
+			b.Header["kid"] = strings.Repeat("k", rapid.IntRange(1, 2000).Draw(t, "kidLen"))
+			b.sign()
+			b.assemble()
+			jobs[i] = job{prev, b.bytes(), suffix, next.Commitment(18)}
+		}
+		errs := make(chan string, n)
+		var wg sync.WaitGroup
+		for i := range jobs {
+			wg.Add(1)
+			go func(j job) {
+				defer wg.Done()
+				defer func() {
+					if r := recover(); r != nil {
+						errs <- fmt.Sprintf("panic while applying: %v", r)
+					}
+				}()
+				for r := 0; r < rounds; r++ {
+					res, err := stack.Applier.Apply(anchoredBytes("update", j.op, j.suffix, anchorMeta{Time: 2, Canonical: "d"}), j.prev)
+					if err != nil || res == nil || res.UpdateCommitment != j.next {
+						errs <- fmt.Sprintf("correctly signed update refused or not applied: %v", err)
+						return
+					}
+				}
+			}(jobs[i])
+		}
+		awaitWorkers(t, &wg, "C02 concurrent signature verification in the applier")
+		close(errs)
+		for e := range errs {
+			t.Fatalf("C02 (with %d goroutines at the same time, %s keys) %s", n, kt, e)
+		}
+		st.Case(n >= 3, fmt.Sprint("concurrent|", kt, n, rounds, jobs[0].suffix), "concurrent", "concurrent-"+kt.String())
+	})
 }
